@@ -690,6 +690,11 @@ class C18(Prop):
 
     def oracle(self, tag, cases, impl, spec, meta):
         b = expr_bytes(cases[0].split(" ")[1])
+        # C18_bounded: "never has to buffer more than 107 bytes" -- an incomplete result for a longer input breaks it
+        for c, i in zip(cases, impl):
+            n = expr_len(c.split(" ")[1])
+            if i != "PANIC" and cls3(i) == "INC" and n > 107:
+                return "reported incomplete for an input of %d bytes: a receiver would have to buffer more than 107 bytes: %s -> %s" % (n, c[:140], i[:80])
         if not settled(b):
             return None
         base = None
@@ -707,12 +712,66 @@ class C18(Prop):
         return None
 
 
+def sendpipe_cases(tier, rng, k, n):
+    """C04_senders_pipeline: pipelines whose frames are produced by the crate's own encoders (Display for v1 addresses,
+    the v2 builder) from values -- one to seven frames of both versions, then a remainder that is not a header"""
+    rng = rng.fork("sendpipe%d" % k)
+    count = (1500 if tier == "quick" else 40000) // n
+    def v1_frame():
+        pick = rng.below(5)
+        if pick == 0:
+            return "1@U"
+        if pick in (1, 2):
+            return "1@4,%s,%s,%d,%d" % (hx(rng.bytes(4) if rng.chance(2, 3) else special_ip4(rng)), hx(rng.bytes(4)), rng.below(65536), rng.below(65536))
+        return "1@6,%s,%s,%d,%d" % (hx(rng.bytes(16) if rng.chance(1, 2) else special_ip6(rng)), hx(special_ip6(rng) if rng.chance(1, 2) else rng.bytes(16)),
+                                     rng.below(65536), rng.below(65536))
+    def v2_frame():
+        ops = []
+        for _ in range(rng.below(4)):
+            ops.append(rng.choice(["T=4:2a", "T=1:6832", "TT=1:6578616d706c652e636f6d", "P=q:5:0102", "T=3:00000000", "R=64",
+                                   "T=%d:%s" % (rng.below(256), hx(rng.bytes(rng.below(40)))), "B=t:4:00|t:2:6162"]))
+        return "2@W,%d,%d,%s@%s" % (rng.choice([0x20, 0x21]), rng.below(3), buildgen.rand_addr(rng), ";".join(ops) or "-")
+    rests = [b"", b"GET / HTTP/1.1\r\n\r\n", SIG[:7], b"PROXY TCP4 1.2.3", b"\x00", b"PROXY UNKNOWN", b"\r\n"]
+    for i in range(count):
+        frames = [(v1_frame() if rng.chance(1, 2) else v2_frame()) for _ in range(1 + rng.below(7 if i % 4 == 0 else 3))]
+        yield ("sendpipe", ("~".join(frames), hx(rng.choice(rests))), {})
+
+
+def ring_pipeline(obj, stream, cand):
+    """every fifth header candidate: the last few candidates of both versions back to back plus a remainder that is not a
+    header; returns (frames, rest) or None"""
+    ring = obj.__dict__.setdefault("_ring", {"v1": [b"PROXY UNKNOWN\r\n"], "v2": [v2gen.v2_fixed(0x20, 0, 0)], "n": 0})
+    mine, other = ("v2", "v1") if stream.startswith("v2") else ("v1", "v2")
+    ring[mine] = (ring[mine] + [bytes(cand)])[-3:]
+    ring["n"] += 1
+    if ring["n"] % 5:
+        return None
+    j = ring["n"] // 5
+    frames = [ring[mine][-1], ring[other][j % len(ring[other])], ring[mine][0]]
+    if j % 3 == 0:
+        frames = frames * 2 + [ring[other][-1]]
+    rest = [b"", b"GET / HTTP/1.1\r\n\r\n", SIG[:7], b"PROXY TCP4 1.2.3", bytes(cand[:len(cand) // 2]), b"\x00"][j % 6]
+    return frames, rest
+
+
+def pipe_class(line):
+    m = re.search(r"P=(\S+) R=(\d+)", line)
+    if not m:
+        return "pipe " + line[:12]
+    kinds = "" if m.group(1) == "-" else "".join(f[0] for f in m.group(1).split(","))
+    mix = "none" if not kinds else ("v1" if set(kinds) == {"1"} else "v2" if set(kinds) == {"2"} else "mixed")
+    return "pipe frames=%s %s rest=%s" % (len(kinds) if len(kinds) < 4 else "4+", mix, "0" if m.group(2) == "0" else "some")
+
+
 class C04(Prop):
     id = "C04"
     projection_name = "acc of the input, of the input followed by trailers, and of the header bytes on their own"
-    streams = v1gen.V1_STREAMS + (v2gen.valid_headers, v2gen.control_v2, v2gen.header_tlvs)
+    streams = v1gen.V1_STREAMS + (v2gen.valid_headers, v2gen.control_v2, v2gen.header_tlvs, sendpipe_cases)
 
     def groups(self, stream, e, meta):
+        if stream == "sendpipe":
+            yield ("sendpipe", ["sendpipe %s %s" % e])
+            return
         b = expr_bytes(e)
         if len(b) > 2000:
             return
@@ -733,33 +792,37 @@ class C04(Prop):
             yield ("trail:" + ("cand" if cand is not None else "nocand"), cases)
         # pipelined headers (C04_pipeline): the last few header candidates of both versions back to back, followed by
         # something that is not a header; a receiver that removes exactly the reported bytes reads them one by one
-        if cand is not None and len(cand) <= 300:
-            ring = self.__dict__.setdefault("_ring", {"v1": [b"PROXY UNKNOWN\r\n"], "v2": [v2gen.v2_fixed(0x20, 0, 0)], "n": 0})
-            mine, other = ("v2", "v1") if stream.startswith("v2") else ("v1", "v2")
-            ring[mine] = (ring[mine] + [bytes(cand)])[-3:]
-            ring["n"] += 1
-            if ring["n"] % 5 == 0:
-                j = ring["n"] // 5
-                frames = [ring[mine][-1], ring[other][j % len(ring[other])], ring[mine][0]]
-                if j % 3 == 0:
-                    frames = frames * 2 + [ring[other][-1]]
-                rest = [b"", b"GET / HTTP/1.1\r\n\r\n", SIG[:7], b"PROXY TCP4 1.2.3", bytes(cand[:len(cand) // 2]), b"\x00"][j % 6]
-                cases = ["auto %s" % hx(f) for f in frames] + ["auto %s" % hx(rest), "pipe %s" % hx(b"".join(frames) + rest)]
-                yield ("pipe", cases)
+        fr = ring_pipeline(self, stream, cand) if cand is not None and len(cand) <= 300 else None
+        if fr is not None:
+            frames, rest = fr
+            cases = ["auto %s" % hx(f) for f in frames] + ["auto %s" % hx(rest), "pipe %s" % hx(b"".join(frames) + rest)]
+            yield ("pipe", cases)
 
     def project(self, case, line):
-        return line if case.startswith("pipe ") else acc(line)
+        return line if case.startswith(("pipe ", "sendpipe ")) else acc(line)
 
     def classify(self, case, line):
-        if case.startswith("pipe "):
-            m = re.match(r"P=(\S+) R=(\d+)", line)
-            if not m:
-                return "pipe " + line[:12]
-            kinds = "" if m.group(1) == "-" else "".join(f[0] for f in m.group(1).split(","))
-            return "pipe frames=%s rest=%s" % (kinds or "none", "0" if m.group(2) == "0" else "some")
+        if case.startswith(("pipe ", "sendpipe ")):
+            return pipe_class(line)
         return Prop.classify(self, case, line)
 
     def oracle(self, tag, cases, impl, spec, meta):
+        if tag == "sendpipe":
+            # every frame is built from well-formed values by the crate's own encoders: the loop must read exactly those
+            # frames, kind by kind, their lengths must add up, and exactly the remainder must be left
+            _, specs, rest = cases[0].split(" ")
+            kinds = [sp[0] for sp in specs.split("~")]
+            nrest = expr_len(rest)
+            if impl[0] == "PANIC":
+                return "sender-to-receiver pipeline panicked"
+            m = re.match(r"N=(\d+) P=(\S+) R=(\d+)$", impl[0])
+            if not m:
+                return "sender-to-receiver pipeline: a frame built from well-formed values was refused by its encoder: %s" % impl[0][:80]
+            got = [] if m.group(2) == "-" else m.group(2).split(",")
+            if [g[0] for g in got] != kinds or int(m.group(3)) != nrest or sum(int(g[2:]) for g in got) + nrest != int(m.group(1)):
+                return ("pipelined frames from the crate's own encoders are not read back one by one: sent kinds %s + %d bytes, "
+                        "received %s" % ("".join(kinds), nrest, impl[0][:120]))
+            return None
         if tag == "pipe":
             if "PANIC" in impl:
                 return "parser panicked"
@@ -809,6 +872,21 @@ class C05(Prop):
         if cand is None:
             yield ("flags", ["%s %s" % (m, e) for m in modes])
             return
+        # the stream of several pipelined headers arriving in reads (C05_stream_pipeline): cut at frame boundaries,
+        # inside frames, with empty reads, byte by byte over the first 40 bytes, in the middle, and as one read
+        fr = ring_pipeline(self, stream, cand) if len(cand) <= 300 else None
+        if fr is not None:
+            frames, rest = fr
+            whole = b"".join(frames) + rest
+            bounds, off = [], 0
+            for f in frames:
+                off += len(f)
+                bounds.append(off)
+            inside = sorted(set(max(0, min(len(whole), x + d)) for x in bounds for d in (-1, 1, -3)))
+            cutsets = ["-", ",".join(map(str, bounds)), ",".join(map(str, inside)),
+                       ",".join(map(str, sorted(bounds + bounds[:1] + inside[:2]))),
+                       ",".join(map(str, range(0, min(len(whole), 40)))), str(len(whole) // 2)]
+            yield ("readpipe", ["pipe %s" % hx(whole)] + ["readpipe %s %s" % (hx(whole), c) for c in cutsets])
         for m in modes:
             cases = ["%s %s" % (m, e)]
             for k in range(len(cand)):
@@ -818,13 +896,25 @@ class C05(Prop):
             yield ("prefixes", cases)
 
     def project(self, case, line):
+        if case.startswith(("pipe ", "readpipe ")):
+            return line
         f = FLAGS.findall(line)
         return cls3(line) + str(f)
 
     def classify(self, case, line):
+        if case.startswith(("pipe ", "readpipe ")):
+            return pipe_class(line)
         return cls3(line)
 
     def oracle(self, tag, cases, impl, spec, meta):
+        if tag == "readpipe":
+            if "PANIC" in impl:
+                return "streaming receiver panicked"
+            for c, i in zip(cases[1:], impl[1:]):
+                if i != impl[0]:
+                    return ("a stream of pipelined headers delivered in reads differs from the one-shot result: one shot %s, "
+                            "reads cut at %s give %s" % (impl[0][:100], c.split(" ")[2][:60], i[:100]))
+            return None
         for c, i in zip(cases, impl):
             if i == "PANIC":
                 return "%s panicked" % c[:100]
